@@ -435,6 +435,7 @@ Definition tla_local_target (locals : list string) (I : instance) (res : string)
   match lookup res (i_binds I) with
   | Some (mkBind (TgtLocal v) _) => (v, true)
   | Some (mkBind (TgtGlobal v) _) => (v, false)
+  | Some (mkBind (TgtExpr _) _) => ("", false)      (* a value parameter the instance fixes: no TLA+ variable *)
   | _ => let v := strip_prefix (i_arch I) res in (v, mem v locals)
   end.
 
@@ -453,7 +454,8 @@ Definition obs_state (locals : list string) (I : instance) (self : value) (base 
                  match v with VStr l => set_comp "pc" self (VStr (tla_label I l)) s | _ => s end
                else if String.eqb res ".stack" then s
                else let '(x, per) := tla_local_target locals I res in
-                    if per then set_comp x self v s else set_assoc x v s) locs st1.
+                    if String.eqb x "" then s
+                    else if per then set_comp x self v s else set_assoc x v s) locs st1.
 
 Definition real_obs_ok (W : wsys) (locals : list string) (I : instance) (proc lbl : string) (self : value) (base : gstate)
            (gpre : list (string * value)) (lpre : list (string * value)) (cands : list (list nat)) (kind : string)
